@@ -15,18 +15,23 @@ claim("C12", "initialiser tables + selector CFG shape + must-check on the constr
       "Defaults [17,3] and suite triples; selection order; the Open Session Response algorithms are compared with the proposal on every success path; algorithm constructors never return (nil,nil).", "DESIGN.md §4 C12")
 claim("C18", "CFG path counting of metric events resolved to registered metric names",
       "Per call and per closure invocation, on every path, the number of Inc/Dec events per metric equals what the path's outcome requires; no other update sites exist.", "DESIGN.md §4 C18")
+claim("C13", "deadline-before-I/O ordering, context provenance (ctx threading) over all call sites, blocking-primitive census, loop classification",
+      "Structural necessary conditions: every socket call is behind its deadline; every Send/Retry/ctx-taking call is bounded by a context derived from the caller's ctx parameter; no other blocking primitive exists in library code; every loop in a blocking function is ctx-bound or a counting loop. Not the numeric bound.", "DESIGN.md §4 C13")
+claim("C14", "data-flow provenance and must-pass-through on the SDR walk and its retry closure",
+      "Map key derives from the decoded header's ID; store only behind type/size guards and a body read with the right offset/length/reservation; Next chaining; publication only when both timestamp comparisons are false. Not completeness for all repository histories.", "DESIGN.md §4 C14")
+claim("C15", "polynomial normal form of the conversion + initialiser tables + predicate true-sets + must-pass-through in Read",
+      "The conversion expression equals the specification's polynomial; lineariser and parser tables match; flags are tested in order with their sentinels before converting. Not floating-point accuracy.", "DESIGN.md §4 C15")
+claim("C16", "loop-shape analysis (natural loops, who-writes induction field, progress/lower-bound), grammar constants, nesting order, fallback reachability",
+      "Both paged enumerations: chunk/page handling on every path, termination arguments, record grammar constants, expansion order, nil-on-error, fallback condition and key mapping. Not completeness against every BMC chunking.", "DESIGN.md §4 C16")
+claim("C20", "initialiser tables, exact predicate true-sets, normal forms / structural shape of bit-copy conversions",
+      "PARTIAL: decides the table/predicate/bit-copy clauses only (BCD-plus table, decoder table, entity-instance ranges, time-unit table, zero/sign-extension parsers, bcd.Decode normal form, checksum shape); the arithmetic conversions are listed as not decided in the evidence.", "DESIGN.md §4 C20")
 for p, why in {
     "C03": "rule set not built yet (engines E2/E4)",
     "C05": "rule set not built yet (engine E1)",
     "C06": "rule set not built yet (engine E2)",
     "C07": "rule set not built yet (engine E2)",
     "C08": "rule set not built yet (engine E2)",
-    "C13": "rule set not built yet",
-    "C14": "rule set not built yet",
-    "C15": "rule set not built yet",
-    "C16": "rule set not built yet",
     "C17": "rule set not built yet (engine E4)",
     "C19": "rule set not built yet (engine E4)",
-    "C20": "rule set not built yet",
 }.items():
     na(p, why)
